@@ -220,6 +220,7 @@ HtmlType(l, j) ==
   ELSE IF At(l, j + 1) = "!" /\ At(l, j + 2) = "-" /\ At(l, j + 3) = "-" THEN 2
   ELSE IF At(l, j + 1) = "?" THEN 3
   ELSE IF At(l, j + 1) = "!" /\ At(l, j + 2) \in {"X"} THEN 4
+  ELSE IF At(l, j + 1) = "!" /\ At(l, j + 2) = "[CDATA[" THEN 5
   ELSE IF At(l, j + 1) \in BlockNames /\ (At(l, j + 2) \in Sp \cup {">", "$"} \/ (At(l, j + 2) = "/" /\ At(l, j + 3) = ">")) THEN 6
   ELSE IF At(l, j + 1) = "/" /\ At(l, j + 2) \in BlockNames /\ At(l, j + 3) \in Sp \cup {">", "$"} THEN 6
   ELSE IF At(l, j + 1) \in OtherNames \cup BlockNames /\ At(l, j + 2) = ">" /\ Blank(l, j + 3) THEN 7
@@ -233,6 +234,7 @@ HtmlEnds(l, i, t) ==
        [] t = 2 -> l[x] = "-" /\ At(l, x + 1) = "-" /\ At(l, x + 2) = ">"
        [] t = 3 -> l[x] = "?" /\ At(l, x + 1) = ">"
        [] t = 4 -> l[x] = ">"
+       [] t = 5 -> l[x] = "]" /\ At(l, x + 1) = "]" /\ At(l, x + 2) = ">"
        [] OTHER -> FALSE
 
 \* c = [st, cont, pos, started, done]: cont = index of the last matched / newest container frame;
@@ -461,7 +463,8 @@ Alphabet ==
                                              <<"#", "a">>, <<"#", " ", "a", " ", "#">>, <<"-", " ", "-", " ", "-">>, <<"-", "-">>, <<"*", "*", "*">>}))
     [] AlphaName = "html"  -> NoTrail(Cat({<<>>}, {<<>>, GtS, Bul, S2, S4}, {<<>>, Wa, Dash3, <<"<", "div", ">">>, <<"<", "/", "div", ">">>, <<"<", "!", "-", "-">>, <<"-", "-", ">">>,
                                              <<"<", "em", ">">>, <<"<", "pre", ">">>, <<"<", "/", "pre", ">">>, <<"<", "?">>, <<"?", ">">>, <<"<", "!", "-", "-", " ", "a", " ", "-", "-", ">">>,
-                                             <<"<", "div">>, <<"<", "/", "em", ">">>, <<"<", "div", ">", "a">>, <<"<", "em", ">", "a">>}))
+                                             <<"<", "div">>, <<"<", "/", "em", ">">>, <<"<", "div", ">", "a">>, <<"<", "em", ">", "a">>,
+                                             <<"<", "!", "X">>, <<"<", "!", "X", " ", "a", ">">>, <<"<", "!", "[CDATA[">>, <<"]", "]", ">">>, <<"a", ">">>}))
     [] AlphaName = "tabs"  -> NoTrail(Cat({<<>>, Gt, GtS, Bul, BulBare, Ord, S1, S2}, {<<>>, Tab, Tab \o Tab, S1 \o Tab, S2 \o Tab},
                                           {<<>>, Wa, Bul \o Wa, BulBare \o Tab \o Wa, Dash3, Fence, HashA, <<"#">> \o Tab \o Wa, Gt \o Wa, Ord \o Wa, <<"1", ".">> \o Tab \o Wa, Tab \o Wa}))
     [] AlphaName = "tabs2" -> NoTrail(Cat({<<>>, GtS, Bul, Bul \o Bul, S2}, {<<>>, Tab, S1 \o Tab, S3 \o Tab, Tab \o S1}, {<<>>, Wa, Bul \o Wa, BulBare \o Tab \o Wa, Fence, Tab \o Wa, Gt \o Tab \o Wa}))
@@ -472,8 +475,9 @@ Alphabet ==
                               \cup {BulWide, Bul2 \o Wa, OrdP \o Wa}
 
 ----------------------------------------------------------------------------
-VARIABLES doc, st
-vars == <<doc, st>>
+VARIABLES doc, st,
+          plan   \* scaled documents only: <<pattern, repetitions, tail>> still to be written (else <<>>)
+vars == <<doc, st, plan>>
 
 HtmlOf(stack) == Render(Fin(CloseTo(stack, 1)[1]))
 Src(ls) == Join([i \in 1..Len(ls) |-> Join(ls[i]) \o "\n"])
@@ -487,14 +491,20 @@ ScaledSizes == IF MaxLines = 0 THEN {42, 43, 63, 64} \cup (125..129) \cup (254..
                ELSE (20..22) \cup (40..45) \cup (60..66) \cup (120..130) \cup (250..258)         \* thorough (MaxLines = -1)
 ScaledTails == {<<<<>>, Bul \o Wa, <<>>, Bul \o Wb>>, <<<<>>, Bul \o Wa, <<>>, S2 \o Wb>>, <<<<>>, Bul \o Wa, Bul \o Wb>>,
                 <<<<>>, Ord \o Wa, S2 \o S1 \o Bul \o Wa, <<>>, S2 \o S1 \o Bul \o Wb>>, <<<<>>, GtS \o Bul \o Wa, Gt, GtS \o Bul \o Wb>>}
-ScaledDocs == {Rep(p, n) \o t : p \in ScaledPatterns, n \in ScaledSizes, t \in ScaledTails}
-Init == IF AlphaName = "scaled" THEN doc \in ScaledDocs /\ st = FeedAll(Start, doc, 1)     \* (no Next step: MaxLines <= 0)
-        ELSE doc = <<>> /\ st = Start
+ScaledPlans == {<<p, n, t>> : p \in ScaledPatterns, n \in ScaledSizes, t \in ScaledTails}
+\* (one cheap initial state per plan; the document is written by one step, so that TLC's workers share the work)
+Init == /\ doc = <<>> /\ st = Start
+        /\ IF AlphaName = "scaled" THEN plan \in ScaledPlans ELSE plan = <<>>
 Feedable == IF Sim THEN {RandomElement(Alphabet)} ELSE Alphabet
-Next == /\ Len(doc) < MaxLines
-        /\ \E l \in Feedable :
-             /\ doc' = Append(doc, l)
-             /\ st' = Feed(st, l, Len(doc) + 1)
+Next == \/ /\ plan = <<>> /\ Len(doc) < MaxLines
+           /\ \E l \in Feedable :
+                /\ doc' = Append(doc, l)
+                /\ st' = Feed(st, l, Len(doc) + 1)
+           /\ UNCHANGED plan
+        \/ /\ plan # <<>>
+           /\ doc' = Rep(plan[1], plan[2]) \o plan[3]
+           /\ st' = FeedAll(Start, doc', 1)
+           /\ plan' = <<>>
 Spec == Init /\ [][Next]_vars
 
 \* every state is a document
